@@ -141,6 +141,11 @@ def cases(tier, seed, i, n):
         for tn in TARGETS:
             for mapping in ('empty', 'empty-with-env', 'http-only', 'https-only', 'both', 'both-with-other-env', 'env-both', 'env-http', 'env-none', 'other-scheme-only'):
                 yield dict(kind='map', target=tn, mapping=mapping)
+                if mapping in ('empty', 'http-only', 'https-only', 'both', 'other-scheme-only'):
+                    # the mapping is put on the object after it was constructed (`ws.proxies = ...`), before the first or
+                    # between two connections: what counts is what is configured when connect() is called
+                    yield dict(kind='map', target=tn, mapping=mapping, how='assigned')
+                    yield dict(kind='map', target=tn, mapping=mapping, how='assigned-between-connections')
         # faults at every socket call of the proxy phase
         for tn in ('ws', 'wss'):
             for pn in ('http-port', 'https-default'):
@@ -396,7 +401,25 @@ def run_map(case, acc):
                 return simnet.ScriptServer([('proxy', OK_REPLIES['ok-plain']), ('hs', {}), ('raw', F(1, b'x')), ('eof',)])
             return simnet.ScriptServer([('hs', {}), ('raw', F(1, b'x')), ('eof',)])
         w = H.World(factory)
-        run = H.drive(w, url=turl, ws_kwargs=dict(proxies=proxies), connect_kwargs=dict(ping_rate=0))
+        ws0 = None
+        if case.get('how'):
+            # constructed with the opposite configuration, then reconfigured
+            first = {} if want else {'http': http_p, 'https': https_p}
+            if case['how'] == 'assigned-between-connections':
+                first_want = first.get('https' if tsecure else 'http')
+
+                def factory0(_i):
+                    if first_want:
+                        return simnet.ScriptServer([('proxy', OK_REPLIES['ok-plain']), ('hs', {}), ('eof',)])
+                    return simnet.ScriptServer([('hs', {}), ('eof',)])
+                r0 = H.drive(H.World(factory0), url=turl, ws_kwargs=dict(proxies=first), connect_kwargs=dict(ping_rate=0))
+                ws0 = r0.ws
+            else:
+                with simnet.Installed(w):
+                    ws0 = env.WebSocket(turl, proxies=first)
+            ws0.proxies = proxies
+            acc.count2('oracle', 'mapping_changed_after_construction')
+        run = H.drive(w, url=turl, ws=ws0, ws_kwargs=dict(proxies=proxies), connect_kwargs=dict(ping_rate=0))
     finally:
         os.environ.clear()
         os.environ.update(saved)
@@ -421,6 +444,8 @@ def run_map(case, acc):
         elif bytes(w.conns[0].tx).startswith(b'CONNECT '):
             key = 'CONNECT-sent-without-proxy'
     if key:
+        if case.get('how'):
+            key += ':mapping-' + case['how']
         acc.violation(key, 'C19 %s: target=%s mapping=%s' % (key, case['target'], mp), case, detail)
     else:
-        acc.cls('map/%s/%s' % (case['target'], mp))
+        acc.cls('map/%s/%s/%s' % (case['target'], mp, case.get('how')))
